@@ -301,3 +301,96 @@ R.contract(
     },
     replayable=False,
 )
+
+
+# ------------------------------------------------------------------------------------------------- auth providers: applied exactly where their filters say, in scope order
+AU = "schemathesis.auths:"
+R.contract("spec:provider_get", args={"case": Opq("Any"), "context": Opq("Any")}, returns=OneOf(NoneT, Opq("AuthData")), trusted=True,
+           effects={"asked": "ghost('asked') + 1", "got": "result"}, note="the user's AuthProvider.get")
+R.nominal_methods["spec:UserProvider"] = {"get": lambda it, obj, a, k: it.abstract_call(R.contracts["spec:provider_get"], "spec:provider_get", [a[0], a[1]], {}, None)}
+fsm = R.contracts[F + "FilterSet.match"]
+R.contract(
+    AU + "SelectiveAuthProvider.get",
+    prop="C19",
+    args={"self": Obj(AU + "SelectiveAuthProvider", provider=Obj("spec:UserProvider"), filter_set=Opq("FilterSetRef")), "case": Opq("Case"), "context": Obj("spec:AuthCtx")},
+    ghost={"asked": 0, "got": None},
+    ensures={
+        # a restricted auth provider is consulted exactly for the operations its own filters select
+        "consulted_iff_own_filters_match": "iff(ghost('asked') == 1, fsmatch_ctx(self.filter_set, context)) and ghost('asked') <= 1",
+        "its_data_is_returned_unchanged": "implies(ghost('asked') == 1, result is ghost('got')) and implies(ghost('asked') == 0, result is None)",
+    },
+)
+
+
+def _prov(i):
+    def get(it, obj, a, k):
+        data = OneOf(NoneT, Opq("AuthData")).make(it, it.path.fresh(f"data{i}"))
+        it.ghost["gets"] = it.ghost["gets"] + [(i, data)]
+        return data
+
+    def set_(it, obj, a, k):
+        it.ghost["sets"] = it.ghost["sets"] + [(i, a[1])]
+        return None
+
+    return {"get": get, "set": set_}
+
+
+for _i in range(3):
+    R.nominal_methods[f"spec:Provider{_i}"] = _prov(_i)
+
+
+class _Providers(D):
+    def make(self, it, name, idx=()):
+        from pyvc.values import VObj
+
+        n = it.path.choose([(k, True) for k in (0, 1, 2, 3)], "n-providers")
+        it.path.bounded_inputs.add("up to 3 registered auth providers")
+        return [VObj(it.resolve_class(f"spec:Provider{i}"), {}) for i in range(n)]
+
+
+R.exception_classes["IncorrectUsage"] = "schemathesis.core.errors:IncorrectUsage"
+R.contract(
+    AU + "AuthStorage.set",
+    prop="C19",
+    args={"self": Obj(AU + "AuthStorage", providers=_Providers()), "case": Obj("spec:AuthCase", _has_explicit_auth=Const(False)), "context": Opq("AuthContext")},
+    ghost={"gets": [], "sets": []},
+    raises=["IncorrectUsage"],
+    ensures={
+        # providers are consulted in registration order; the first one that has data for this operation sets it - once - and the case is marked as explicitly authenticated
+        "first_provider_with_data_wins": "ghost('sets') == [g for g in ghost('gets') if g[1] is not None][:1] and [g[0] for g in ghost('gets')] == list(range(length(ghost('gets'))))",
+        "later_providers_are_not_consulted_after_a_hit": "all(g[1] is None for g in ghost('gets')[:-1])",
+        "marked_iff_authenticated": "iff(case._has_explicit_auth is True, length(ghost('sets')) == 1)",
+        "all_consulted_when_nobody_has_data": "implies(length(ghost('sets')) == 0, length(ghost('gets')) == length(self.providers))",
+    },
+    raises_ensures={"usage_error_only_without_providers": "length(self.providers) == 0"},
+    replayable=False,
+)
+StorageD = lambda tag: Obj("spec:Storage", is_defined=Choice(True, False), tag=Const(tag))
+R.nominal_methods["spec:Storage"] = {"set": lambda it, obj, a, k: it.ghost.__setitem__("used", it.ghost["used"] + [obj.fields["tag"]])}
+R.module_values[AU.rstrip(":") + ":GLOBAL_AUTH_STORAGE"] = None  # replaced per path below (setup)
+
+
+def _soc_setup(it):
+    from pyvc.verify import locate
+    from pyvc.values import VObj
+
+    mod, node, fn = locate(it, AU + "set_on_case")
+    g = StorageD("global").make(it, "global_storage")
+    it.module_set(mod, "GLOBAL_AUTH_STORAGE", g) if hasattr(it, "module_set") else mod.cache.__setitem__("GLOBAL_AUTH_STORAGE", g)
+    it.ghost["global_storage"] = g
+    return fn, {}
+
+
+R.contract(
+    AU + "set_on_case",
+    prop="C19",
+    setup=_soc_setup,
+    args={"case": Obj("spec:AuthCase2", operation=Obj("spec:AuthOp", schema=Obj("spec:AuthSchema", auth=StorageD("schema")))), "context": Opq("AuthContext"),
+          "auth_storage": OneOf(NoneT, StorageD("test"))},
+    ghost={"used": [], "global_storage": None},
+    ensures={
+        # the most specific scope wins: the test's own auth, else the schema's, else the global one - and exactly one of them is applied
+        "most_specific_defined_scope_is_used": "ghost('used') == (['test'] if auth_storage is not None else (['schema'] if case.operation.schema.auth.is_defined else (['global'] if ghost('global_storage').is_defined else [])))",
+    },
+    replayable=False,
+)
